@@ -30,4 +30,8 @@ CLAIMS = {
         "text": "Proved: whenever prune returns, the record counter is <= the desired size and is the number it reports; the overflow flag is exactly 'was over size before'. Every prune in every generated history is judged by the specification oracle on dumps taken right before and after: no expired record left, counts (expired, evicted, remaining, overflow) true, survivors unchanged, evicted names whole, least-recently-used, and minimal; every dump satisfies the structural invariant (counter = number of distinct (name,type,data); queues in sync; next_expiry = minimum). 2-8 real threads on one SharedCache followed by the invariant. Invariant-preservation and termination-given-invariant theorems are being proved.",
         "note": "Partial: std::sync::Mutex and the priority-queue crate are trusted; concurrency is observed, not proved. Found and fixed F14 (next_expiry recomputed over one record type).",
     },
+    "C06": {
+        "text": "Proved: a reply is accepted iff ID, QR, opcode and question match, TC is clear and rcode is NoError/NameError (exact characterisation, so any mismatch discards it as a whole); answer and CNAME results of the filter are sub-lists of the reply's answer section. The full 'only allowed records' statement (CNAMEs on a path from the question name, asked type at its end, NS owned by the deepest enclosing zone below the current delegation, glue only for those hosts, SOA rules for NODATA) is checked on every adversarial reply by the Impl-vs-Spec oracle USpec.checkValidated and Impl-vs-Model exactly; its theorem is being proved.",
+        "note": "Trusted: Lean kernel; model<->Rust tie differential (through the cfg-guarded wrappers). Found and fixed F8 (off-path CNAMEs) and F9 (NS with foreign owner).",
+    },
 }
